@@ -13,7 +13,7 @@ LEVEL = "proof"
 TRUSTED = [
     "model: lean/RpyModel/Metrics.lean (mirror of observables.py)",
     "theorems: lean/RpyProofs/Props/C19.lean (formulas, affine laws, R2 identities, dimension-wise = per column, "
-    "triangular spectrum = diagonal, similarity invariance, effective matrix)",
+    "triangular spectrum = diagonal, similarity invariance, effective matrix, rotation blocks (complex pair of modulus |s|), symmetric blocks [[a,b],[b,a]] (eigenvalues a+b, a-b; radius |a|+|b| also when the dominant one is negative), block-diagonal charpoly)",
     "numpy.linalg.eig / scipy ARPACK eigs are NOT verified: their result is compared with the proved spectrum of the structured family (1e-6) and sparse vs dense agreement on random matrices (oracle only)",
     "q1q3 normalisation (np.quantile) is checked by the harness oracle only",
 ]
